@@ -40,7 +40,8 @@ CHECKS["C19"] = {
              "that has an active forwarding rule or sink whatever the state of the other table (guard evaluated for every "
              "combination of key-present / list-non-empty), and only the registration methods write the rule tables."
              " R19.7: an endpoint's getData returns None or a value produced by this very receive on every path; a stored field that is not written on the path (the previous message) is never returned."
-             " R19.8: a field of the hub that spin both tests and writes (a latch) has its initial value again on every exit of spin on which it was written."),
+             " R19.8: a field of the hub that spin both tests and writes (a latch) has its initial value again on every exit of spin on which it was written."
+             ' R19.9: sendData of every endpoint class and of the hub transmits whatever the message is - no path that skips the transmission is selected by a test of the message value (identity tests against None excepted), so falsy payloads such as the empty string of a zero-length datagram are not dropped.'),
     "note": ("Trusted: endpoints honour the CommsObject interface; real socket behaviour (shutdown on an unconnected UDP "
              "socket etc.) is not modelled."),
 }
@@ -56,7 +57,8 @@ CHECKS["C12"] = {
              "frame read first; force-at-a-point wrenches are [p x f ; f]; mixed-frame arithmetic converts a copy of the "
              "right operand into the left operand's frame. The numerical identities (A->B->C = A->C to 1e-8) then rest "
              "on the SE(3) algebra decided under C01/C04 and are not themselves decided. Also (R12.5): closure obligations on the primitives under changeFrame; identity-element branches (x + 0, x * 1) are recognised as value-preserving. R12.6: a 6-element array operand of + / - (either side) meets the 6x1 payload as a column (case analysis on isinstance(other, np.ndarray) and len(other) == 6), so (a + b) - b = a holds for array b."
-             " R12.7: operator dispatch - when a subclass of Screw overrides a reflected + / -, Python answers `Screw <op> Subclass` with that method first; the Screw-operand branch it reaches (through super() if it delegates) must reconcile the frames, not combine the raw payloads."),
+             " R12.7: operator dispatch - when a subclass of Screw overrides a reflected + / -, Python answers `Screw <op> Subclass` with that method first; the Screw-operand branch it reaches (through super() if it delegates) must reconcile the frames, not combine the raw payloads."
+             " R12.8: the frame equality behind the `frame == frame` short circuits of changeFrame / + / - (tm.__eq__) has an absolute closeness threshold <= 1e-8 and no larger relative part (allclose / isclose / max-abs / norm forms with constant tolerances), so two different frames are never treated as one beyond the property's bound."),
     "note": "Trusted: globalToLocal(a,b)=inv(a)*b and adjoint() (decided under C01/C04); NumPy broadcasting semantics.",
 }
 
@@ -72,7 +74,8 @@ CHECKS["C16"] = {
              "construction), path extraction by parent walk + goal, and a non-zero divisor in the progress display for "
              "every budget >= 1. Numerical distances and the R-tree's nearest-neighbour answers are not decided. Also: R16.5 strict improvement is decided on must-hold facts at the re-parenting cost store (guard clauses understood); R16.8 the choose-parent scan visits every neighbour the query returned (no break/return, full range). R16.9: the spatial index stores and queries a node at the point box of its own position for each supported dimensionality; a node is inserted without a parent only under the fact that the neighbour query came back empty; the goal is appended to the path unconditionally."
              " R16.6: the path is read positionally (parent walk, append + reverse idiom accepted); setParent does not rewrite the stored cost (the cost is the planner's, measured with the planner's distance)."
-             " R16.6 also: generateTree hands generalGenerateTree the planner's own distance and obstruction applied to exactly the two nodes (a pre-filtered obstruction subset is a violation)."),
+             " R16.6 also: generateTree hands generalGenerateTree the planner's own distance and obstruction applied to exactly the two nodes (a pre-filtered obstruction subset is a violation)."
+             ' R16.9 accepts copies of the pose (tm(p), p.copy()) and reports any call that rewrites the pose (or the copy the coordinates are read from) between getPosition() and the index call.'),
     "note": "Trusted: purity of caller-supplied callbacks; rtree nearest() (library).",
 }
 
@@ -88,7 +91,8 @@ CHECKS["C15"] = {
              "here. Floating-point rounding within 1e-9 of contact is not decided. R15.4: each planner owns its obstruction list (fresh list on every constructor path, no mutable default argument or class attribute, only addObstruction writes it), so the boxes tested are the ones registered on that planner."
              " R15.3: addObstruction stores, for each axis, both corner ends (in either order, or as min/max) and appends exactly one box on every path; no registered box is dropped."
              " R15.5: the corners read by the test are the corners registered: the six-vector constructor form of tm stores entries 0..2 of its argument in rows 0..2 (element-flow evaluation, both rpy flags) and nothing it calls rewrites those rows in place; indexing reads the six-vector."
-             " R15.5 also: the copy form of the tm constructor gives the copy arrays of its own (node poses built from one template do not share a position buffer)."),
+             " R15.5 also: the copy form of the tm constructor gives the copy arrays of its own (node poses built from one template do not share a position buffer)."
+             ' R15.6: a node keeps the position it is given - PathNode.__init__ binds self.position to its argument or a copy on every path (tm(argument) would read a 3-sequence as a rotation) and getPosition returns that field.'),
     "note": "Trusted: separating-axis theorem for a segment and an axis-aligned box; NumPy element-wise arithmetic.",
 }
 
@@ -123,7 +127,7 @@ CHECKS["C01"] = {
              "have the same normal form as modern_robotics 1.1.1. The numerical identities log(exp(x)) = x, exp(log(T)) = T, "
              "inv(T)T = I, Ad homomorphism to 5e-6 are NOT decided: they rest on the reference formulas (trusted base)."
              " R01.5: no rigid-motion primitive writes into an array it is given (effects summary through callees and views): the identities are statements about the caller's x, T and w."),
-    "note": "Trusted: modern_robotics 1.1.1 formulas; rewrite set N1..N34; IEEE arithmetic near the 0/pi branch points is not analysed.",
+    "note": "Trusted: modern_robotics 1.1.1 formulas; rewrite set N1..N37; IEEE arithmetic near the 0/pi branch points is not analysed.",
 }
 
 CHECKS["C17"] = {
@@ -137,7 +141,8 @@ CHECKS["C17"] = {
              "contract's equalities (this is what finds an i-column view passed with i+1 joint values). 'Compiled equals "
              "interpreted' is not decided (Numba code generation is the trusted base). R17.2 is path-sensitive: a shape environment follows named slices to the kernel call. Per-joint tables of the arm passed whole (extent num_dof) are compared with sliced vectors at kernel call sites."
              " R17.1 also checks kernel-to-kernel call arguments: a slice passed to another kernel (Norm(Vs[3:5])) must have the extent that kernel's contract reads."
-             " R17.3: direction of the (screw table, joint vector) contract - the seven kernels taking both are re-analysed with cols(table) = n + slack, slack >= 0: every index must stay in bounds when the table has more columns than the vector has entries (the Python layers pass the whole table with a caller-length vector)."),
+             " R17.3: direction of the (screw table, joint vector) contract - the seven kernels taking both are re-analysed with cols(table) = n + slack, slack >= 0: every index must stay in bounds when the table has more columns than the vector has entries (the Python layers pass the whole table with a caller-length vector)."
+             ' R17.1 also reports an index whose bound against a contract extent cannot be signed when the smallest admissible size (1 for an extent, 0 for slack) is a witness for which the index lies outside (e.g. a loop over the 6 rows of the screw table indexing the joint vector).'),
     "note": "Trusted: shape contracts in sa/engine/mrspec.py (docstrings); Numba code generation; callers not analysed pass arrays that satisfy the contracts.",
 }
 
@@ -202,7 +207,7 @@ CHECKS["C08"] = {
              "wrappers call the kernels with arguments in role order, 1-D tip loads and matching return arity. Symmetry / "
              "definiteness as numbers, FD o ID = id, energy conservation and agreement of Arm.inverseDynamics/inverseDynamicsC "
              "with the recursion are numerical identities and are NOT decided. Also (R08.4): dependence conformance inside Arm.inverseDynamics - the base step carries (0,0,0,-g) through an operator that reads the same model inputs (joint value, screw, link frames) as the general step's propagation operator."),
-    "note": "Trusted: modern_robotics 1.1.1 recursion as the physics reference; rewrite set N1..N34.",
+    "note": "Trusted: modern_robotics 1.1.1 recursion as the physics reference; rewrite set N1..N37.",
 }
 
 CHECKS["C14"] = {
@@ -231,7 +236,8 @@ CHECKS["C18"] = {
              "gap closing advances by delta along the unit direction; the midpoint is mean position + exp(log(R2 R1^T)/2)R1; "
              "sphere samplers satisfy x^2+y^2+z^2 = 1 identically; chainJacobian follows the JacobianSpace recurrence; lookAt "
              "builds a right-handed frame. Geodesic/metric relations as numbers and the optimiser-based helper are not decided. Helper formulas (IKPath, closeLinearGap, midpoint, lookAt, chainJacobian, tripleUnit) are decided by normal-form equality with reference implementations written from the definitions; R18.7 closure obligations."
-             " R18.2 also bounds the in-place stores of tm.angleMod to the rotation rows 3..5 of the six-vector. R18.4 decides lookAt structurally when it is not written like the reference: on every returning path the result is tm(M) with the position kept, z = unit(target - position), y = z x x and x a unit vector orthogonal to z (unit(u x z), or a constant unit vector orthogonal to u only under a fact that |u x z| vanishes)."),
+             " R18.2 also bounds the in-place stores of tm.angleMod to the rotation rows 3..5 of the six-vector. R18.4 decides lookAt structurally when it is not written like the reference: on every returning path the result is tm(M) with the position kept, z = unit(target - position), y = z x x and x a unit vector orthogonal to z (unit(u x z), or a constant unit vector orthogonal to u only under a fact that |u x z| vanishes)."
+             ' R18.9 accepts any common displacement of the two probes (the step parameter or one expression used on both sides) and requires the quotient to divide by twice that very displacement.'),
     "note": "Trusted: exp/log primitives (C01); NumPy element-wise semantics.",
 }
 
@@ -247,7 +253,8 @@ CHECKS["C04"] = {
              "LocalToGlobal/GlobalToLocal are literally ref*rel and inv(ref)*rel in rotation-vector form and the wrappers pass "
              "(reference, rel) in order. Associativity, inverse laws and cross-form equality to 5e-6 are numerical and not decided. Also (R04.5): every compiled primitive reachable from the constructor sync, inv and the frame-conversion helpers has the normal form of the pinned reference (closure obligations), so a defect in exp/log breaks this property's check too."
              " R04.1 also: nothing a constructor form calls on self rewrites the translation rows of the six-vector in place (in-place stores of mutators such as angleMod are bounded to rows 3..5)."
-             " R04.6: the constructor forms give the new transform arrays of its own (TM / TAA are never views of the argument, by the NumPy view / copy table; the reference-keeping setters are not handed an argument)."),
+             " R04.6: the constructor forms give the new transform arrays of its own (TM / TAA are never views of the argument, by the NumPy view / copy table; the reference-keeping setters are not handed an argument)."
+             " R04.7: no method of tm stores a computed value in place into a local array whose dtype follows the caller's argument (np.array(x) / reshape / copy without a float dtype), so integer descriptions build the same transform as float ones; element-flow values that an in-place store makes unknown give no verdict (exit 2) instead of a comparison."),
     "note": "Trusted: exp/log/TransInv (C01/C02); scipy Rotation default quaternion convention.",
 }
 
@@ -263,7 +270,8 @@ CHECKS["C20"] = {
              "arbitrary Python objects (dynamic __str__/__format__) is NOT decided. The formatted value must be the array element itself on every path (alias-aware); locals are identified by role. R20.6: in the renderer for lists of transforms / wrenches every integer conversion of an entry is dominated by abs(x) >= 9999 and not isinf(x), so NaN and infinite entries are rendered instead of raising."
              " R20.1 is path-based: on every path of disp the renderer receives the parameters themselves (matrix, nd, ...) or a view/reshape of them, never a value-modified copy."
              " R20.7: the payload of a Screw / Wrench is stored as a 6x1 column on every path of Screw.__init__ (reshape to (6,1), a (6,1) zero column, or the argument itself only under the fact shape == (6,1)): disp indexes wrenches over that grid."
-             " R20.8: indexing a transform returns the entry of its six-vector unchanged (lists of transforms are rendered cell by cell through tm.__getitem__)."),
+             " R20.8: indexing a transform returns the entry of its six-vector unchanged (lists of transforms are rendered cell by cell through tm.__getitem__)."
+             ' R20.2 for arrays of 2 and more dimensions is decided by case analysis: the body of dispa is specialised to ndim = 2..5 and shape[0] = 0..4 (constants propagated, constant tests folded, loops unrolled) and on every remaining path the recursive renderings must be rows 0..shape[0]-1 once each, in order - however the loop over the first axis is written; an unconditional read of row 0 of an empty table is reported as such.'),
     "note": "Trusted: Python string formatting of finite floats; the stated input kinds.",
 }
 
@@ -279,7 +287,8 @@ CHECKS["C13"] = {
              "into the running pose; screws are [axis; point x axis] with the axis rotated by the accumulated pose; the arm is "
              "built at the identity base with the last accumulated pose as tool home. FK equality with the file's semantics to "
              "1e-6 is numerical and not decided. The pose bookkeeping of the chain walk is decided by a symbolic pose walk (products of origins on every path of one iteration, with an inferred loop invariant); locals are identified by role, not by name."
-             " R13.5: Arm.FK evaluates the loaded chain at the joint vector it is given or at its clamp to the limits only (no folding of in-limit joint values before the product of exponentials)."),
+             " R13.5: Arm.FK evaluates the loaded chain at the joint vector it is given or at its clamp to the limits only (no folding of in-limit joint values before the product of exponentials)."
+             ' R13.6: every Modern-Robotics primitive in the callee closure of the loader, class tm and Arm.FK (exp / log of rotations that the accumulated joint poses go through) has the normal form of the pinned reference.'),
     "note": "Trusted: ElementTree parsing; tm composition (C04); the chain is strictly serial (as the property states).",
 }
 
@@ -295,7 +304,8 @@ CHECKS["C09"] = {
              "from exactly the stored poses, so lengths reported after FK are recomputed geometry. Convergence of the solvers to "
              "1e-3 is numerical and not decided. R09.2 discovers class-wide every instance field that caches a function of the plate-fixed joint tables (by data dependence) and requires every writer of the tables to refresh or reset each of them on every path; kernel formulas are decided by normal-form equality with a reference implementation written from the definition. R09.5: in the Newton FK kernel the height floor applied to the iterate is at most leg_ext_min/2 (a higher floor excludes poses of flat platforms), the residual driven to zero is squared joint distance minus squared requested length, and the top joints are rotated by the current guess."
              " R09.6: the leg lengths _IKHelper hands back are a snapshot (copy) of self.lengths, so the corrective action on the stored lengths cannot rewrite the vector already returned to the caller."
-             " R09.7: no array object is bound both to a plate-fixed joint table and to a space-joint buffer that the IK kernel writes in place."),
+             " R09.7: no array object is bound both to a plate-fixed joint table and to a space-joint buffer that the IK kernel writes in place."
+             ' R09.8: move(new base) - the pose expression handed to IK is evaluated as a word in the free group over the poses involved (A @ B, inv, localToGlobal = a*b, globalToLocal = inv(a)*b, getters read in place, fields versioned along every branch) and must be new_base * inv(old base) * old top, solved against the new base.'),
     "note": "Trusted: convergence of SPFKinSpaceR's Newton iteration and its Jacobian (not analysed numerically); the bound leg_ext_min/2 on the height floor is taken from the kernel as exercised; tokens name one pose value per path.",
 }
 
@@ -310,7 +320,8 @@ CHECKS["C10"] = {
              "corrects only when allowed and re-validates deep enough; pure queries end with the poses they started with; no helper "
              "can re-enter itself with unchanged constant arguments (every call returns). That the constraint predicates compute "
              "the right geometry is not decided. R10.7: the validity FK / IK return was evaluated for the state they leave: after the validate() whose verdict is returned the platform is moved only by a validating call or by one rigid motion of both plates through the current relative transform."
-             " R10.8: _IKHelper runs the IK kernel on every returning path (no solve remembered across calls)."),
+             " R10.8: _IKHelper runs the IK kernel on every returning path (no solve remembered across calls)."
+             ' R10.6 reports a stroke-limit test applied to a function of the leg lengths (rounded, offset) instead of the lengths themselves.'),
     "note": "Trusted: external solvers only call the closure they are given; a token names one pose value along a path.",
 }
 
@@ -326,7 +337,8 @@ CHECKS["C11"] = {
              "jacobian() as pinv(inverseJacobian()). Derivative and equilibrium identities are numerical and not decided."
              " R11.4: the statics table of Robot (staticForces / staticForcesBody / their inverses) is decided in this check too: each entry is the transposed (space / body) Jacobian or its pseudo-inverse applied to the wrench payload, without a frame change of the argument."
              " R11.5: getActuatorLoc(i, 't'/'b') is getUnitVec(own joint of leg i, other joint of leg i, configured offset) with the offset the configured constant itself (never a function of the current leg length), and getUnitVec is first point + unit(second - first) * distance (reference comparison)."
-             " R11.6: every path of the four statics methods of Robot records the forces it worked with in self._last_tau, whatever optional arguments it was called with (sumActuatorWrenches() and the other force queries default to it)."),
+             " R11.6: every path of the four statics methods of Robot records the forces it worked with in self._last_tau, whatever optional arguments it was called with (sumActuatorWrenches() and the other force queries default to it)."
+             " R11.2: constant-trip loops containing `continue` are lowered to branches before unrolling; a leg left out exactly when its force is zero counts as contributed, any other condition under which a leg's wrench is skipped is reported with that condition."),
     "note": "Trusted: makeWrench / Wrench layout (C12); Robot statics table (C06).",
 }
 
